@@ -202,7 +202,14 @@ def fused_cases(draw):
             return shared_loops[0]["rv"] not in proj[t]
         return last_slot_ok(t)
 
-    cand = [t for t in main_t if t not in shared_t and t not in inter and first_loop_ok(t)]
+    # only read-only tensors (weights, inputs): a persistent copy of an output in a non-backing memory is outside
+    # the documented use of persistence ("must remain in backing storage for the full duration")
+    def in_branch(t):
+        return any(x["k"] == "storage" and x["level"] == "GLB" and t in x["tensors"] for br in branches for x in br)
+
+    # (a tensor with a GLB node inside a branch is not eligible: removing that node would change the branch head and
+    # with it the normal-form condition of the other nodes above the split)
+    cand = [t for t in main_t if t not in shared_t and t not in inter and t not in outs and first_loop_ok(t) and not in_branch(t)]
     if cand and draw(st.integers(0, 2)) == 0:
         pt = draw(st.sampled_from(cand))
         persistent_nodes = [{"k": "storage", "level": "GLB", "tensors": [pt], "persistent": True}]
